@@ -807,7 +807,7 @@ impl BuiltInFunction {
                     args[0].as_list(borrowed_heap)?.clone()
                 };
                 let borrowed_heap = heap.borrow();
-                list.sort_by(|a, b| {
+                stable_sort_by(&mut list, &mut |a: &Value, b: &Value| {
                     a.compare(b, &borrowed_heap)
                         .unwrap_or(None)
                         .unwrap_or(std::cmp::Ordering::Equal)
@@ -1500,7 +1500,7 @@ impl BuiltInFunction {
                     args[0].as_list(borrowed_heap)?.clone()
                 };
 
-                list.sort_by(|a, b| {
+                stable_sort_by(&mut list, &mut |a: &Value, b: &Value| {
                     // Only look up the function once, not twice
                     let func_def = get_function_def(func, &heap.borrow());
 
@@ -1639,6 +1639,36 @@ impl BuiltInFunction {
     pub fn all_names() -> Vec<&'static str> {
         Self::all().iter().map(|f| f.name()).collect()
     }
+}
+
+/// Stable merge sort that tolerates comparators which are not total orders.
+///
+/// Values of different types (and NaN) compare as "equal" in `sort` / `sort_by`, so the
+/// comparator is not a total order on mixed data, and `slice::sort_by` is allowed to panic on
+/// such comparators. For a total order this returns exactly what `slice::sort_by` returns.
+fn stable_sort_by<T: Copy, F: FnMut(&T, &T) -> std::cmp::Ordering>(list: &mut Vec<T>, cmp: &mut F) {
+    let len = list.len();
+    if len < 2 {
+        return;
+    }
+    let mut right = list.split_off(len / 2);
+    stable_sort_by(list, cmp);
+    stable_sort_by(&mut right, cmp);
+
+    let left = std::mem::take(list);
+    let (mut i, mut j) = (0, 0);
+    while i < left.len() && j < right.len() {
+        // take from the right only when it is strictly smaller: equal elements keep their order
+        if cmp(&right[j], &left[i]) == std::cmp::Ordering::Less {
+            list.push(right[j]);
+            j += 1;
+        } else {
+            list.push(left[i]);
+            i += 1;
+        }
+    }
+    list.extend_from_slice(&left[i..]);
+    list.extend_from_slice(&right[j..]);
 }
 
 impl FunctionDef {
